@@ -36,6 +36,7 @@ class Program:
         s.resolve_cache = {}
         s.pure = set()         # names of pure scalar predicates to summarise
         s.promoted_cache = {}
+        s.last_autoderef = 0
         s.memo_str = set()     # pure crate functions of one &str whose result is memoised within a path (same text object)
         s.observers = {}       # MIR function name -> callback(it, args, result) (harness ghost state)
         s.sumcache = {}
@@ -201,7 +202,11 @@ class Program:
             for t in cands:
                 for a in (amp, ''):
                     k = '<%s%s as %s>::%s' % (a, sty, t, meth)
-                    if k in s.index: return s.index[k]
+                    if k in s.index:
+                        # blanket std impls for references (`impl PartialEq<&B> for &A`, Display for &T, ...) forward to
+                        # the impl of the referent: the arguments then carry one more reference level
+                        s.last_autoderef = len(re.match(r'&*', ty.replace('&mut ', '&')).group(0)) if (amp and not a) else 0
+                        return s.index[k]
             im = re.match(r'Into<(.*)>$', trl)
             if im:
                 k = '<%s as From<%s>>::from' % (s.short_ty(im.group(1)), sty)
@@ -1122,6 +1127,13 @@ class Interp:
             return s.call(name, args)
         if kind == 'model':
             return ent[1](s, ent[2], args)
+        if kind == 'mir_deref':
+            a2 = []
+            for x in args:
+                for _ in range(ent[2]):
+                    if isinstance(x, Ref) and isinstance(x.get(), Ref): x = x.get()
+                a2.append(x)
+            return s.call(ent[1], a2)
         if kind == 'dyn':
             return s.dyn_dispatch(ent[1], ent[2], args)
         raise Unsupported('call ' + callee)
@@ -1134,8 +1146,11 @@ class Interp:
         for rx, h in prog.models:
             m = rx.fullmatch(c)
             if m: return ('model', h, m)
+        prog.last_autoderef = 0
         name = prog.resolve_crate(c)
-        if name: return ('mir', name)
+        if name:
+            if prog.last_autoderef: return ('mir_deref', name, prog.last_autoderef)
+            return ('mir', name)
         m = re.fullmatch(r'<(T|Self|&T|U|impl [^>]*?) as (.+)>::(\w+)', c)
         if m: return ('dyn', re.sub(r'\s', '', m.group(2)), m.group(3))
         return ('none',)
@@ -1160,6 +1175,10 @@ class Interp:
             for k in cands:
                 if k in s.prog.index: return s.call(s.prog.index[k], args)
             if tgt == ty and not is_ref: return v0
+            if tgt == 'Vec' and ty == 'list': return v0
+            if tgt == 'String' and ty in ('&str', 'String'):
+                from .models_core import as_str
+                return StrObj(list(as_str(s, v0).chars()))
             if tgt == 'Cow': return Agg('Cow', 0 if is_ref else 1, [v0])
             if ty in ('int', 'bool') and tgt in INT_TYPES: return v0
         name = s.prog.resolve_crate('<%s%s as %s>::%s' % ('&' if is_ref else '', ty, trait, meth))
